@@ -159,9 +159,16 @@ Definition send_product_info_to (r:rnode) (i dst:Z) (tp:bool) : rnode * list eve
   let '(r1, ev, ok) := rsend r m i in
   let x := get_devx r1 i in
   (set_pending r1 i (x_pend_claim x) (if ok then sched_disabled (w64 r1) else pend_sched r1 (dev_src r1 i) 8) (x_pend_conf x), ev).
+(* the message SendConfigurationInformation builds: PGN 126998, or - when no string at all is configured (empty payload in the model) -
+   the ISO acknowledgement "not available" for it *)
+Definition config_info_msg (r:rnode) (i dst:Z) (tp:bool) : msg :=
+  match c_confinfo (r_cfg r) with
+  | [] => {| m_pri := 6; m_pgn := 59392; m_src := dev_src r i; m_dst := dst; m_data := [1; 255; 255; 255; 255] ++ le_bytes 3 126998; m_tp := tp |}
+  | _ :: _ => {| m_pri := 6; m_pgn := 126998; m_src := dev_src r i; m_dst := dst; m_data := c_confinfo (r_cfg r); m_tp := tp |}
+  end.
 Definition send_config_info_to (r:rnode) (i dst:Z) (tp:bool) : rnode * list event :=
   let r := chk_dev r i in
-  let m := {| m_pri := 6; m_pgn := 126998; m_src := dev_src r i; m_dst := dst; m_data := c_confinfo (r_cfg r); m_tp := tp |} in
+  let m := config_info_msg r i dst tp in
   let '(r1, ev, ok) := rsend r m i in
   let x := get_devx r1 i in
   (set_pending r1 i (x_pend_claim x) (x_pend_prod x) (if ok then sched_disabled (w64 r1) else pend_sched r1 (dev_src r1 i) 10), ev).
